@@ -1,3 +1,449 @@
+(* C08 proofs over the heap machine of C08Model.v *)
 From Coq Require Import List Arith ZArith Bool Lia.
 From PM Require Import C08Model.
 Import ListNotations.
+
+(* ---- list facts ---- *)
+Lemma set_nth_length {A} (l : list A) k x : length (set_nth l k x) = length l.
+Proof. revert k; induction l as [|y l IH]; intros [|k]; simpl; auto. Qed.
+Lemma nth_set_nth_same {A} (l : list A) k x d : k < length l -> nth k (set_nth l k x) d = x.
+Proof. revert k; induction l as [|y l IH]; intros [|k] H; simpl in *; try lia; auto. apply IH; lia. Qed.
+Lemma nth_set_nth_other {A} (l : list A) k j x d : j <> k -> nth j (set_nth l k x) d = nth j l d.
+Proof.
+  revert k j; induction l as [|y l IH]; intros [|k] [|j] H; simpl; auto; try congruence.
+Qed.
+Lemma upd_nth_length {A} (l : list A) k f d : length (upd_nth l k f d) = length l.
+Proof. apply set_nth_length. Qed.
+Lemma nth_upd_other {A} (l : list A) k j f d d' : j <> k -> nth j (upd_nth l k f d) d' = nth j l d'.
+Proof. intro H. unfold upd_nth. apply nth_set_nth_other; auto. Qed.
+Lemma nth_upd_same {A} (l : list A) k f d : k < length l -> nth k (upd_nth l k f d) d = f (nth k l d).
+Proof. intro H. unfold upd_nth. apply nth_set_nth_same; auto. Qed.
+Lemma nth_app_old {A} (l : list A) x k d : k < length l -> nth k (l ++ [x]) d = nth k l d.
+Proof. intro H. apply app_nth1; auto. Qed.
+
+(* ---- read-only objects reject every mutator; frozen arrays reject direct writes ---- *)
+Lemma mutators_rejected h i :
+  valid h i = true -> oro (nth i (objs h) dflt_obj) = true ->
+  hstep h (HSetInt i) = (h, RErr) /\ hstep h (HIAdd i) = (h, RErr) /\ hstep h (HSetUnits i) = (h, RErr).
+Proof. intros V R. simpl. rewrite V, R. auto. Qed.
+
+Lemma direct_write_refused h i :
+  valid h i = true ->
+  awr (get_arr h (ovals (nth i (objs h) dflt_obj))) = false ->
+  hstep h (HDirectV i) = (h, RErr).
+Proof. intros V W. simpl. rewrite V, W. reflexivity. Qed.
+Lemma direct_mask_write_refused h i m :
+  valid h i = true -> omask (nth i (objs h) dflt_obj) = Some m ->
+  awr (get_arr h m) = false -> hstep h (HDirectM i) = (h, RErr).
+Proof. intros V M W. simpl. rewrite V, M, W. reflexivity. Qed.
+
+(* as_readonly: afterwards the object's own arrays refuse writes and it is flagged *)
+Lemma get_arr_set_awr_same h a w : a < length (arrs h) -> awr (get_arr (set_awr h a w) a) = w.
+Proof. intro H. unfold get_arr, set_awr; simpl. rewrite nth_upd_same; auto. Qed.
+Lemma get_arr_set_awr_other h a b w : b <> a -> get_arr (set_awr h a w) b = get_arr h b.
+Proof. intro H. unfold get_arr, set_awr; simpl. apply nth_upd_other; auto. Qed.
+Lemma awr_set_awr_false h a b : awr (get_arr h b) = false -> awr (get_arr (set_awr h a false) b) = false.
+Proof.
+  intro H. destruct (Nat.eq_dec b a) as [->|N].
+  - destruct (Nat.lt_ge_cases a (length (arrs h))) as [L|G].
+    + apply get_arr_set_awr_same; auto.
+    + unfold get_arr, set_awr in *; simpl. rewrite nth_overflow; [reflexivity|].
+      rewrite upd_nth_length. exact G.
+  - rewrite get_arr_set_awr_other; auto.
+Qed.
+
+Lemma freeze_freezes h i :
+  let o := nth i (objs h) dflt_obj in
+  i < length (objs h) -> ovals o < length (arrs h) ->
+  (forall m, omask o = Some m -> m < length (arrs h)) ->
+  let h' := freeze h i in
+  oro (nth i (objs h') dflt_obj) = true /\
+  awr (get_arr h' (ovals o)) = false /\
+  (forall m, omask o = Some m -> awr (get_arr h' m) = false).
+Proof.
+  intros o Hi Hv Hm h'. unfold h', freeze. fold o.
+  split; [|split].
+  - unfold set_obj; simpl. rewrite nth_set_nth_same; auto.
+    destruct (omask o); simpl; auto.
+  - unfold set_obj, get_arr; simpl.
+    destruct (omask o) as [m|] eqn:E; simpl.
+    + change (awr (get_arr (set_awr (set_awr h (ovals o) false) m false) (ovals o)) = false).
+      apply awr_set_awr_false. apply get_arr_set_awr_same; auto.
+    + change (awr (get_arr (set_awr h (ovals o) false) (ovals o)) = false).
+      apply get_arr_set_awr_same; auto.
+  - intros m E. rewrite E. unfold set_obj; simpl.
+    change (awr (get_arr (set_awr (set_awr h (ovals o) false) m false) m) = false).
+    apply get_arr_set_awr_same. unfold set_awr; simpl. rewrite upd_nth_length. apply Hm; auto.
+Qed.
+
+(* ---- a buffer all of whose arrays are read-only can never change again ---- *)
+Definition buf_frozen (h : heap) (b : nat) : Prop :=
+  forall k, k < length (arrs h) -> abuf (get_arr h k) = b -> awr (get_arr h k) = false.
+
+Lemma get_buf_write_other h a k z b :
+  abuf (get_arr h a) <> b -> get_buf (write h a k z) b = get_buf h b.
+Proof.
+  intro H. unfold write. destruct (nth_error (aidx (get_arr h a)) k); auto.
+  unfold get_buf; simpl. apply nth_upd_other. congruence.
+Qed.
+Lemma arrs_write h a k z : arrs (write h a k z) = arrs h.
+Proof. unfold write. destruct (nth_error _ _); reflexivity. Qed.
+Lemma bufs_len_write h a k z : length (bufs (write h a k z)) = length (bufs h).
+Proof. unfold write. destruct (nth_error _ _); simpl; auto. apply upd_nth_length. Qed.
+
+(* the frozen-ness of b and its content, as one invariant *)
+Definition keeps (h h' : heap) (b : nat) : Prop :=
+  buf_frozen h' b /\ get_buf h' b = get_buf h b /\ length (bufs h) <= length (bufs h').
+
+Lemma keeps_refl h b : buf_frozen h b -> keeps h h b.
+Proof. intro H. repeat split; auto. Qed.
+Lemma keeps_trans h1 h2 h3 b : keeps h1 h2 b -> keeps h2 h3 b -> keeps h1 h3 b.
+Proof. intros (A & B & C) (D & E & F). repeat split; auto; [congruence|lia]. Qed.
+
+Lemma keeps_bufs_len h h' b : keeps h h' b -> b < length (bufs h) -> b < length (bufs h').
+Proof. intros (_ & _ & L) H. lia. Qed.
+Lemma keeps_frozen h h' b : keeps h h' b -> buf_frozen h' b.
+Proof. intros (A & _); exact A. Qed.
+
+Lemma keeps_set_awr_false h a b : buf_frozen h b -> keeps h (set_awr h a false) b.
+Proof.
+  intro H. repeat split; auto.
+  intros k Hk Hb. unfold set_awr in Hk; simpl in Hk. rewrite upd_nth_length in Hk.
+  destruct (Nat.eq_dec k a) as [->|N].
+  - apply get_arr_set_awr_same; auto.
+  - rewrite get_arr_set_awr_other in *; auto.
+Qed.
+Lemma keeps_set_obj h i o b : buf_frozen h b -> keeps h (set_obj h i o) b.
+Proof. intro H. repeat split; auto. Qed.
+Lemma keeps_add_obj h o b : buf_frozen h b -> keeps h (add_obj h o) b.
+Proof. intro H. repeat split; auto. Qed.
+Lemma keeps_add_buf h c b : b < length (bufs h) -> buf_frozen h b -> keeps h (fst (add_buf h c)) b.
+Proof.
+  intros L H. unfold add_buf; simpl. repeat split; auto.
+  - unfold get_buf; simpl. apply nth_app_old; auto.
+  - simpl. rewrite app_length; simpl; lia.
+Qed.
+Lemma get_arr_add_arr_old h a k : k < length (arrs h) -> get_arr (fst (add_arr h a)) k = get_arr h k.
+Proof. intro H. unfold get_arr, add_arr; simpl. apply nth_app_old; auto. Qed.
+Lemma get_arr_add_arr_new h a : get_arr (fst (add_arr h a)) (length (arrs h)) = a.
+Proof. unfold get_arr, add_arr; simpl. rewrite app_nth2; [|lia]. rewrite Nat.sub_diag. reflexivity. Qed.
+Lemma keeps_add_arr h a b :
+  buf_frozen h b -> (abuf a = b -> awr a = false) -> keeps h (fst (add_arr h a)) b.
+Proof.
+  intros H Ha. repeat split; auto.
+  intros k Hk Hb. unfold add_arr in Hk; simpl in Hk. rewrite app_length in Hk; simpl in Hk.
+  destruct (Nat.eq_dec k (length (arrs h))) as [->|N].
+  - rewrite get_arr_add_arr_new in *. auto.
+  - rewrite get_arr_add_arr_old in * by lia. apply H; auto; lia.
+Qed.
+(* a view inherits the flag of its base *)
+Lemma keeps_view h a sel b : buf_frozen h b -> keeps h (fst (view h a sel)) b.
+Proof.
+  intro H. unfold view. apply keeps_add_arr; auto. simpl. intro E.
+  destruct (Nat.lt_ge_cases a (length (arrs h))) as [L|G].
+  - apply H; auto.
+  - unfold get_arr. rewrite nth_overflow; auto.
+Qed.
+(* a fresh array lives on a fresh buffer *)
+Lemma fresh_arr_eq h c w :
+  fst (fresh_arr h c w) = fst (add_arr (fst (add_buf h c)) (mka (length (bufs h)) (seq 0 (length c)) w)).
+Proof. reflexivity. Qed.
+Lemma keeps_fresh_arr h c w b : b < length (bufs h) -> buf_frozen h b -> keeps h (fst (fresh_arr h c w)) b.
+Proof.
+  intros L H. rewrite fresh_arr_eq.
+  pose proof (keeps_add_buf h c b L H) as K1.
+  eapply keeps_trans; [exact K1|].
+  apply keeps_add_arr.
+  - apply (keeps_frozen _ _ _ K1).
+  - cbn [abuf awr]. intro E. lia.
+Qed.
+Lemma keeps_write h a k z b :
+  buf_frozen h b -> awr (get_arr h a) = true -> keeps h (write h a k z) b.
+Proof.
+  intros H W. repeat split.
+  - intros j Hj Hb. rewrite arrs_write in Hj. unfold get_arr in *. rewrite arrs_write in *. apply H; auto.
+  - apply get_buf_write_other. intro E.
+    destruct (Nat.lt_ge_cases a (length (arrs h))) as [L|G].
+    + rewrite (H a L E) in W. discriminate.
+    + unfold get_arr in W. rewrite nth_overflow in W; auto. discriminate.
+  - rewrite bufs_len_write. lia.
+Qed.
+
+(* ---- the invariant "buffer b is frozen and holds content c" through every step ---- *)
+Section Frozen.
+Variable b : nat.
+Variable c : list Z.
+Definition Inv (h : heap) : Prop := buf_frozen h b /\ get_buf h b = c /\ b < length (bufs h).
+
+Lemma inv_of_keeps h h' : Inv h -> keeps h h' b -> Inv h'.
+Proof. intros (A & B & C) (D & E & F). repeat split; auto; [congruence|lia]. Qed.
+Lemma inv_set_awr h a : Inv h -> Inv (set_awr h a false).
+Proof. intros I. apply (inv_of_keeps h); auto. apply keeps_set_awr_false. apply I. Qed.
+Lemma inv_set_obj h i o : Inv h -> Inv (set_obj h i o).
+Proof. intros I. apply (inv_of_keeps h); auto. apply keeps_set_obj. apply I. Qed.
+Lemma inv_add_obj h o : Inv h -> Inv (add_obj h o).
+Proof. intros I. apply (inv_of_keeps h); auto. apply keeps_add_obj. apply I. Qed.
+Lemma inv_view h a sel : Inv h -> Inv (fst (view h a sel)).
+Proof. intros I. apply (inv_of_keeps h); auto. apply keeps_view. apply I. Qed.
+Lemma inv_fresh h l w : Inv h -> Inv (fst (fresh_arr h l w)).
+Proof. intros I. apply (inv_of_keeps h); auto. destruct I as (A & B & C). apply keeps_fresh_arr; auto. Qed.
+Lemma inv_write h a k z : Inv h -> awr (get_arr h a) = true -> Inv (write h a k z).
+Proof. intros I W. apply (inv_of_keeps h); auto. apply keeps_write; auto. apply I. Qed.
+Lemma inv_made h n : Inv h -> Inv (mkheap (bufs h) (arrs h) (objs h) n).
+Proof. intros I. exact I. Qed.
+Lemma inv_freeze h i : Inv h -> Inv (freeze h i).
+Proof.
+  intro I. unfold freeze. apply inv_set_obj.
+  destruct (omask (nth i (objs h) dflt_obj)); repeat apply inv_set_awr; auto.
+Qed.
+Lemma inv_new_obj h va ma mb ro u l : Inv h -> Inv (new_obj h va ma mb ro u l).
+Proof.
+  intro I. unfold new_obj. apply inv_add_obj.
+  destruct (negb (awr (get_arr h va))); auto. destruct ma; auto. apply inv_set_awr; auto.
+Qed.
+(* writes through a writeable array, folded over several positions *)
+Lemma awr_write h a k z a' : awr (get_arr (write h a k z) a') = awr (get_arr h a').
+Proof. unfold get_arr. rewrite arrs_write. reflexivity. Qed.
+Lemma inv_fold_write h a ks z :
+  Inv h -> awr (get_arr h a) = true -> Inv (fold_left (fun hh k => write hh a k z) ks h).
+Proof.
+  revert h. induction ks as [|k ks IH]; intros h I W; simpl; auto.
+  apply IH. { apply inv_write; auto. } rewrite awr_write. exact W.
+Qed.
+(* x += number: every element of the value array, in place *)
+Lemma inv_iadd h a :
+  Inv h -> awr (get_arr h a) = true ->
+  Inv (mkheap (upd_nth (bufs h) (abuf (get_arr h a))
+                (fun bb => fold_left (fun acc p => set_nth acc p (nth p acc 0 + 100)%Z) (aidx (get_arr h a)) bb) [])
+              (arrs h) (objs h) (made h)).
+Proof.
+  intros (A & B & C) W.
+  assert (N : abuf (get_arr h a) <> b).
+  { intro E. destruct (Nat.lt_ge_cases a (length (arrs h))) as [L|G].
+    - rewrite (A a L E) in W. discriminate.
+    - unfold get_arr in W. rewrite nth_overflow in W; auto. discriminate. }
+  repeat split.
+  - intros k Hk Hb. apply A; auto.
+  - unfold get_buf; simpl. rewrite nth_upd_other; auto.
+  - simpl. rewrite upd_nth_length. exact C.
+Qed.
+
+Ltac pairstep :=
+  match goal with
+  | I : Inv ?h |- context [view ?h ?a ?s] =>
+      let h1 := fresh "hh" in let v := fresh "vv" in let E := fresh "E" in let I1 := fresh "I" in
+      destruct (view h a s) as [h1 v] eqn:E;
+      assert (I1 : Inv h1) by (replace h1 with (fst (view h a s)) by (rewrite E; reflexivity);
+                               apply inv_view; exact I);
+      clear E
+  | I : Inv ?h |- context [fresh_arr ?h ?l ?w] =>
+      let h1 := fresh "hh" in let v := fresh "vv" in let E := fresh "E" in let I1 := fresh "I" in
+      destruct (fresh_arr h l w) as [h1 v] eqn:E;
+      assert (I1 : Inv h1) by (replace h1 with (fst (fresh_arr h l w)) by (rewrite E; reflexivity);
+                               apply inv_fresh; exact I);
+      clear E
+  end.
+
+Lemma hstep_inv h p : Inv h -> Inv (fst (hstep h p)).
+Proof.
+  intro I. destruct p; unfold hstep.
+  - (* HMake *) repeat pairstep. cbn [fst]. apply inv_made. apply inv_add_obj. assumption.
+  - destruct (valid h i); cbn [fst]; auto. apply inv_freeze; auto.
+  - destruct (valid h i); cbn [fst]; auto.
+    pairstep. destruct (omask (nth i (objs h) dflt_obj)).
+    + pairstep. cbn [fst]. apply inv_new_obj; assumption.
+    + cbn [fst]. apply inv_new_obj; assumption.
+  - destruct (valid h i); cbn [fst]; auto; try (apply inv_add_obj; auto).
+  - destruct (valid h i); cbn [fst]; auto.
+    destruct (olast (nth i (objs h) dflt_obj) <? 2); cbn [fst]; auto.
+    pairstep. destruct (omask (nth i (objs h) dflt_obj)).
+    + pairstep. cbn [fst]. apply inv_new_obj; assumption.
+    + cbn [fst]. apply inv_new_obj; assumption.
+  - destruct (valid h i); cbn [fst]; auto.
+    pairstep. destruct (omask (nth i (objs h) dflt_obj)).
+    + pairstep. cbn [fst]. apply inv_add_obj; assumption.
+    + cbn [fst]. apply inv_add_obj; assumption.
+  - (* HBroadcast *)
+    destruct (valid h i); cbn [fst]; auto.
+    assert (I0 : Inv (freeze h i)) by (apply inv_freeze; auto).
+    pairstep.
+    match goal with |- context [set_awr ?hh ?vv false] =>
+      assert (I2 : Inv (set_awr hh vv false)) by (apply inv_set_awr; assumption) end.
+    destruct (omask (nth i (objs (freeze h i)) dflt_obj)).
+    + pairstep. cbn [fst]. apply inv_add_obj. apply inv_set_awr. assumption.
+    + cbn [fst]. apply inv_add_obj. assumption.
+  - (* HPickle *)
+    destruct (valid h i); cbn [fst]; auto.
+    destruct (omask (nth i (objs h) dflt_obj)).
+    + destruct (all_true _).
+      * pairstep. cbn [fst]. apply inv_add_obj; assumption.
+      * destruct (negb (any_true _)).
+        -- pairstep. cbn [fst]. apply inv_add_obj; assumption.
+        -- pairstep. pairstep. cbn [fst]. apply inv_add_obj; assumption.
+    + pairstep. cbn [fst]. apply inv_add_obj; assumption.
+  - (* HSetInt *)
+    destruct (valid h i); cbn [fst]; auto.
+    destruct (oro (nth i (objs h) dflt_obj)); cbn [fst]; auto.
+    destruct (awr (get_arr h (ovals (nth i (objs h) dflt_obj)))) eqn:W; cbn [negb fst]; auto.
+    match goal with |- context [fold_left ?f ?ks h] =>
+      assert (I1 : Inv (fold_left f ks h)) by (apply inv_fold_write; auto) end.
+    destruct (omask (nth i (objs h) dflt_obj)).
+    + pairstep. cbn [fst]. apply inv_set_obj; assumption.
+    + destruct (omb (nth i (objs h) dflt_obj)).
+      * pairstep. cbn [fst]. apply inv_set_obj; assumption.
+      * cbn [fst]. assumption.
+  - (* HIAdd *)
+    destruct (valid h i); cbn [fst]; auto.
+    destruct (oro (nth i (objs h) dflt_obj)); cbn [fst]; auto.
+    destruct (awr (get_arr h (ovals (nth i (objs h) dflt_obj)))) eqn:W; cbn [negb fst]; auto.
+    apply inv_iadd; auto.
+  - destruct (valid h i); cbn [fst]; auto.
+    destruct (oro (nth i (objs h) dflt_obj)); cbn [fst]; auto; try (apply inv_set_obj; auto).
+  - destruct (valid h i); cbn [fst]; auto.
+    destruct (awr (get_arr h (ovals (nth i (objs h) dflt_obj)))) eqn:W; cbn [fst]; auto.
+    apply inv_write; auto.
+  - destruct (valid h i); cbn [fst]; auto.
+    destruct (omask (nth i (objs h) dflt_obj)) as [m|]; cbn [fst]; auto.
+    destruct (awr (get_arr h m)) eqn:W; cbn [fst]; auto. apply inv_write; auto.
+Qed.
+
+Lemma hrun_inv ps : forall h, Inv h -> Inv (hrun h ps).
+Proof. induction ps as [|p ps IH]; intros h I; simpl; auto. apply IH. apply hstep_inv. exact I. Qed.
+End Frozen.
+
+(* a frozen buffer keeps its content through every history *)
+Theorem frozen_forever h b ps :
+  buf_frozen h b -> b < length (bufs h) -> get_buf (hrun h ps) b = get_buf h b.
+Proof.
+  intros F L. destruct (hrun_inv b (get_buf h b) ps h) as (_ & E & _); auto.
+  repeat split; auto.
+Qed.
+
+(* once an object is flagged read-only it stays so *)
+Lemma objs_write h a k z : objs (write h a k z) = objs h.
+Proof. unfold write. destruct (nth_error _ _); reflexivity. Qed.
+Lemma objs_fold_write h a ks z : objs (fold_left (fun hh k => write hh a k z) ks h) = objs h.
+Proof. revert h; induction ks as [|k ks IH]; intro h; simpl; auto. rewrite IH. apply objs_write. Qed.
+
+Definition ro_at (h : heap) (i : nat) : Prop :=
+  i < length (objs h) /\ oro (nth i (objs h) dflt_obj) = true.
+
+Lemma ro_at_app l o i :
+  i < length l -> oro (nth i l dflt_obj) = true ->
+  i < length (l ++ [o]) /\ oro (nth i (l ++ [o]) dflt_obj) = true.
+Proof. intros L R. rewrite app_length; simpl. split; [lia|]. rewrite app_nth1; auto. Qed.
+Lemma ro_at_set l j o i :
+  i < length l -> oro (nth i l dflt_obj) = true -> (j = i -> oro o = true) ->
+  i < length (set_nth l j o) /\ oro (nth i (set_nth l j o) dflt_obj) = true.
+Proof.
+  intros L R H. rewrite set_nth_length. split; auto.
+  destruct (Nat.eq_dec i j) as [->|N].
+  - rewrite nth_set_nth_same; auto.
+  - rewrite nth_set_nth_other; auto.
+Qed.
+
+Lemma ro_at_freeze h j i : ro_at h i -> ro_at (freeze h j) i.
+Proof.
+  intros [L R]. unfold ro_at, freeze, set_obj.
+  destruct (omask (nth j (objs h) dflt_obj)); cbn; apply ro_at_set; auto.
+Qed.
+
+Lemma oro_monotone h p i : ro_at h i -> ro_at (fst (hstep h p)) i.
+Proof.
+  intros [L R].
+  destruct p; unfold hstep;
+    repeat match goal with
+           | |- context [valid h ?j] => destruct (valid h j); cbn [fst]; try (split; assumption)
+           end.
+  - unfold ro_at, fresh_arr, add_buf, add_arr, add_obj. cbn. apply ro_at_app; auto.
+  - apply ro_at_freeze. split; auto.
+  - unfold ro_at, view, add_arr, new_obj, add_obj, set_awr.
+    destruct (omask (nth i0 (objs h) dflt_obj)); cbn;
+      match goal with |- context [if ?c then _ else _] => destruct c end; cbn; apply ro_at_app; auto.
+  - unfold ro_at, add_obj. cbn. apply ro_at_app; auto.
+  - unfold ro_at, fresh_arr, add_buf, add_arr, new_obj, add_obj, set_awr.
+    destruct (olast (nth i0 (objs h) dflt_obj) <? 2); cbn; auto.
+    destruct (omask (nth i0 (objs h) dflt_obj)); cbn;
+      match goal with |- context [if ?c then _ else _] => destruct c end; cbn; apply ro_at_app; auto.
+  - unfold ro_at, fresh_arr, add_buf, add_arr, add_obj.
+    destruct (omask (nth i0 (objs h) dflt_obj)); cbn; apply ro_at_app; auto.
+  - (* HBroadcast *)
+    pose proof (ro_at_freeze h i0 i (conj L R)) as [L0 R0].
+    set (h0 := freeze h i0) in *.
+    unfold ro_at, view, add_arr, add_obj, set_awr.
+    destruct (omask (nth i0 (objs h0) dflt_obj)); cbn; apply ro_at_app; auto.
+  - unfold ro_at, fresh_arr, add_buf, add_arr, add_obj.
+    destruct (omask (nth i0 (objs h) dflt_obj)); cbn.
+    + destruct (all_true _); cbn; [apply ro_at_app; auto|].
+      destruct (negb (any_true _)); cbn; apply ro_at_app; auto.
+    + apply ro_at_app; auto.
+  - (* HSetInt: only reached when the target is writable, so the target is not i *)
+    destruct (oro (nth i0 (objs h) dflt_obj)) eqn:R0; cbn [fst]; [split; assumption|].
+    destruct (negb (awr (get_arr h (ovals (nth i0 (objs h) dflt_obj))))); cbn [fst]; [split; assumption|].
+    assert (N : i0 <> i) by (intro E; subst; congruence).
+    unfold ro_at, fresh_arr, add_buf, add_arr, set_obj.
+    destruct (omask (nth i0 (objs h) dflt_obj)); cbn.
+    + rewrite objs_fold_write. apply ro_at_set; auto; intro E; congruence.
+    + destruct (omb (nth i0 (objs h) dflt_obj)); cbn; rewrite objs_fold_write.
+      * apply ro_at_set; auto; intro E; congruence.
+      * split; auto.
+  - destruct (oro (nth i0 (objs h) dflt_obj)) eqn:R0; cbn [fst]; [split; assumption|].
+    destruct (negb (awr (get_arr h (ovals (nth i0 (objs h) dflt_obj))))); cbn [fst]; split; assumption.
+  - destruct (oro (nth i0 (objs h) dflt_obj)) eqn:R0; cbn [fst]; [split; assumption|].
+    assert (N : i0 <> i) by (intro E; subst; congruence).
+    unfold ro_at, set_obj. cbn. apply ro_at_set; auto; intro E; congruence.
+  - destruct (awr (get_arr h (ovals (nth i0 (objs h) dflt_obj)))); cbn [fst]; [|split; assumption].
+    unfold ro_at. rewrite objs_write. split; assumption.
+  - destruct (omask (nth i0 (objs h) dflt_obj)) as [m|]; cbn [fst]; [|split; assumption].
+    destruct (awr (get_arr h m)); cbn [fst]; [|split; assumption].
+    unfold ro_at. rewrite objs_write. split; assumption.
+Qed.
+
+Lemma oro_forever ps : forall h i, ro_at h i -> ro_at (hrun h ps) i.
+Proof. induction ps as [|p ps IH]; intros h i H; simpl; auto. apply IH. apply oro_monotone. exact H. Qed.
+
+(* objects derived from a read-only object are read-only; copy() is writable on fresh storage *)
+Lemma derived_readonly h i :
+  valid h i = true -> oro (nth i (objs h) dflt_obj) = true ->
+  forall p, In p [HSlice i; HClone i; HAdvanced i; HBroadcast i; HPickle i] ->
+  snd (hstep h p) = ROk ->
+  oro (last (objs (fst (hstep h p))) dflt_obj) = true.
+Proof.
+  intros V R p Hp. simpl in Hp.
+  destruct Hp as [<-|[<-|[<-|[<-|[<-|[]]]]]]; unfold hstep; rewrite V.
+  - unfold view, add_arr, new_obj, add_obj, set_awr.
+    destruct (omask (nth i (objs h) dflt_obj)); cbn; intros _;
+      match goal with |- context [if ?c then _ else _] => destruct c end; cbn; rewrite last_last; cbn; exact R.
+  - unfold add_obj. cbn. intros _. rewrite last_last. exact R.
+  - unfold fresh_arr, add_buf, add_arr, new_obj, add_obj, set_awr.
+    destruct (olast (nth i (objs h) dflt_obj) <? 2); cbn; [discriminate|].
+    destruct (omask (nth i (objs h) dflt_obj)); cbn; intros _;
+      match goal with |- context [if ?c then _ else _] => destruct c end; cbn; rewrite last_last; cbn; exact R.
+  - set (h0 := freeze h i). unfold view, add_arr, add_obj, set_awr.
+    destruct (omask (nth i (objs h0) dflt_obj)); cbn; intros _; rewrite last_last; reflexivity.
+  - unfold fresh_arr, add_buf, add_arr, add_obj.
+    destruct (omask (nth i (objs h) dflt_obj)); cbn.
+    + destruct (all_true _); cbn; [intros _; rewrite last_last; exact R|].
+      destruct (negb (any_true _)); cbn; intros _; rewrite last_last; exact R.
+    + intros _; rewrite last_last; exact R.
+Qed.
+
+Lemma copy_writable_fresh h i :
+  valid h i = true ->
+  let h' := fst (hstep h (HCopy i)) in
+  let o' := last (objs h') dflt_obj in
+  oro o' = false /\ awr (get_arr h' (ovals o')) = true /\
+  length (bufs h) <= abuf (get_arr h' (ovals o')).
+Proof.
+  intros V. unfold hstep. rewrite V.
+  unfold fresh_arr, add_buf, add_arr, add_obj, get_arr.
+  destruct (omask (nth i (objs h) dflt_obj)); cbn; rewrite last_last; cbn.
+  - repeat split; auto.
+    + rewrite app_nth1 by (rewrite app_length; simpl; lia).
+      rewrite app_nth2 by lia. rewrite Nat.sub_diag. reflexivity.
+    + rewrite app_nth1 by (rewrite app_length; simpl; lia).
+      rewrite app_nth2 by lia. rewrite Nat.sub_diag. cbn. lia.
+  - repeat split; auto.
+    + rewrite app_nth2 by lia. rewrite Nat.sub_diag. reflexivity.
+    + rewrite app_nth2 by lia. rewrite Nat.sub_diag. cbn. lia.
+Qed.
